@@ -328,11 +328,13 @@ def serverErrorResponse (msgId : Option Id) (code : Int) (message : Str) : Excep
   createErrorResponse msgId code message .null
 
 /-- the request `send_message` writes: optional progress token (a fresh uuid) injected into
-`params._meta`, id = `message_id or uuid` (an empty `message_id` is falsy). -/
-def sendMessageRequest (method : Str) (params : Option Obj) (messageId : Option Str) (freshId freshTok : Str)
+`params._meta`, id = `message_id or uuid`: the id given, with its JSON type, unless it is falsy (`None`,
+`""`, `0`), in which case a fresh uuid string is used. -/
+def sendMessageRequest (method : Str) (params : Option Obj) (messageId : Option Id) (freshId freshTok : Str)
     (progress : Bool) : Except CErr Msg :=
   let id : Id := match messageId with
-    | some s => if s = [] then .str freshId else .str s
+    | some (.str s) => if s = [] then .str freshId else .str s
+    | some (.int i) => if i = 0 then .str freshId else .int i
     | none => .str freshId
   if progress then
     match injectToken params (.str freshTok) with
